@@ -38,9 +38,7 @@ func SnapFrom(r *Rec, f *sipsp.PFromBody) {
 	r.Fld("V", f.V)
 	r.Val("ParamErr", int64(f.ParamErr))
 	if f.ParamErr != 0 {
-		r.Pos("ErrOffs", int(f.ErrOffs))
-	} else {
-		r.Val("ErrOffs", int64(f.ErrOffs)) // must be 0 / untouched
+		r.Pos("ErrOffs", int(f.ErrOffs)) // only meaningful together with ParamErr
 	}
 	r.Bool("Empty()", f.Empty())
 	r.Bool("Parsed()", f.Parsed())
@@ -163,8 +161,8 @@ func SnapHdrLst(r *Rec, hl *sipsp.HdrLst) {
 	for t := sipsp.HdrNone + 1; t < sipsp.HdrOther; t++ {
 		oo := r.InIdx("GetHdr", int(t))
 		h := hl.GetHdr(t)
-		r.Bool("nil", h == nil)
-		if h != nil {
+		r.Bool("absent", h == nil || h.Missing()) // nil and an empty Hdr both mean "no such header"
+		if h != nil && !h.Missing() {
 			SnapHdr(r, h)
 		}
 		r.Out(oo)
@@ -221,14 +219,19 @@ func SnapMsg(r *Rec, m *sipsp.PSIPMsg, buf []byte) {
 	// this parse: the success exit and the missing-Content-Length exit both set Buf and RawMsg)
 	if (m.Parsed() || len(m.RawMsg) > 0) && !r.MaskBody {
 		// Buf / RawMsg are documented to be saved when parsing is complete
-		r.Val("len(Buf)", int64(len(m.Buf))-int64(r.Base))
+		if !r.MaskBuf {
+			r.Val("len(Buf)", int64(len(m.Buf))-int64(r.Base))
+		}
 		r.Val("len(RawMsg)", int64(len(m.RawMsg)))
 		// RawMsg must be a view of the caller's buffer ending at len(Buf)
 		r.Bool("RawMsg aliases buf", aliasEnd(m.RawMsg, m.Buf))
-		r.Bool("Buf aliases buf", aliasStart(m.Buf, buf))
+		if !r.MaskBuf {
+			r.Bool("Buf aliases buf", aliasStart(m.Buf, buf))
+		}
 	}
 	// once this parse has published Buf / RawMsg, every reported field points into Buf
-	if (m.Parsed() || len(m.RawMsg) > 0) && r.MaxEnd > len(m.Buf) && r.OOB == "" {
+	// (signature and other helpers dereference the fields of a successfully parsed message against it)
+	if m.Parsed() && r.MaxEnd > len(m.Buf) && r.OOB == "" {
 		r.OOB = fmt.Sprintf("a reported field ends at %d but the published msg.Buf has only %d bytes", r.MaxEnd, len(m.Buf))
 	}
 }
